@@ -13,7 +13,7 @@ BOUNDS = ('FNV-1a 32/64: all contents of length 0..3 (quick) / 0..6 (thorough), 
           '(thorough) bytes, all split points. MD5/SHA-1/SHA-256 digest (bin and hex) vs reference implementations: message length concrete per cell '
           '(quick: 0,1,55,56,63,64,65; thorough: every length 0..130 for MD5, 0..3, 52..68, 116..130 for SHA-1/SHA-256, plus extra positions/patterns at '
           'the block boundaries), content = fixed fill pattern with ONE free byte (all 256 values) at a fixed position (the last byte unless stated). '
-          'With hooks/hash-block-hook.patch applied: padding/framing for every length 0..130 with FULLY symbolic content.')
+          'Padding/framing (PHOSG_VERIF hook) for every length 0..300 (quick: boundary lengths up to 120) with FULLY symbolic content.')
 STUBS = [
     'vasprintf (h_md.c): exact model for sequences of "%08X" conversions of 32-bit values (8 upper-case hex digits each) - the only formats hex() uses; '
     'anything else is an assertion failure',
@@ -22,7 +22,7 @@ STUBS = [
 OUTSIDE = [
     'digest correctness for messages with more than one unconstrained byte: a digest miter with >= 3 free bytes gives no verdict (MD5, 600 s), so "for every '
     'byte string" is NOT decided for the compression functions; what is decided: each cell fixes a length and a fill pattern and leaves one byte free',
-    'message lengths > 130 (three blocks); the quantifier\'s "random inputs up to 1 MiB"',
+    'digest equality for lengths > 130 except the block-boundary lengths 183..193, 247..257, 300; framing for lengths > 300; the quantifier\'s "random inputs up to 1 MiB"',
     'without the hook patch the padding is only exercised through the digest cells (fixed pattern + one free byte)',
     'FNV/CRC contents longer than 6 bytes (the recurrences are byte-uniform; longer inputs repeat the same step)',
 ]
@@ -67,7 +67,7 @@ def queries(tier):
             return
         # translation validation (same generated C for every cell of a harness) on the boundary lengths only in the thorough tier
         tv = (not thorough) or n in (0, 1, 3, 55, 56, 63, 64, 65, 119, 120, 128, 130)
-        q(nm, 'h_md.c', {'ALG': alg, 'LEN': n, 'POS': pos, 'PAT': pat, 'HEX': hexm, 'FROM_STRING': fs}, 200, 900, cost=30 + n // 2, tv=tv,
+        q(nm, 'h_md.c', {'ALG': alg, 'LEN': n, 'POS': pos, 'PAT': pat, 'HEX': hexm, 'FROM_STRING': fs}, max(200, n + 80), 900, cost=30 + n // 2, tv=tv,
           desc='%s %s of a %d-byte message (fill pattern %d, byte %d free over all 256 values, %s constructor) == reference implementation (RFC 1321 / FIPS 180-4)'
                % (an, 'hex()' if hexm else 'bin()', n, pat, pos, 'std::string' if fs else 'pointer'),
           bounds='length %d, one free byte at position %d' % (n, pos))
@@ -86,14 +86,16 @@ def queries(tier):
                 if n > 64:
                     dq(alg, an, n, pos=63, pat=(n + 2) % 4)
                     dq(alg, an, n, pos=64, pat=(n + 3) % 4)
+            for n in (183, 184, 191, 192, 193, 247, 248, 255, 256, 257, 300):   # four- and five-block messages (statement: lengths 0..300)
+                dq(alg, an, n, pat=n % 4)
             for n in (3, 56, 64):
                 dq(alg, an, n, hexm=1)
                 dq(alg, an, n, fs=1, pat=2)
     # ---- framing (needs the hook) ---------------------------------------------------------------------------------------------------
     if HOOK:
         for alg, an in ALGS:
-            for n in (range(0, 131) if thorough else (0, 1, 55, 56, 57, 63, 64, 65, 119, 120)):
-                q('%s_frame_len%d' % (an, n), 'h_frame.c', {'ALG': alg, 'LEN': n}, 200, 600, flags=['--slice-formula'], cost=10, tv=(not thorough) or n % 16 == 0 or n in (55, 56, 119, 120),
+            for n in (range(0, 301) if thorough else (0, 1, 55, 56, 57, 63, 64, 65, 119, 120)):
+                q('%s_frame_len%d' % (an, n), 'h_frame.c', {'ALG': alg, 'LEN': n}, max(200, n + 80), 600, flags=['--slice-formula'], cost=10, tv=(not thorough) or n % 16 == 0 or n in (55, 56, 119, 120),
                   desc='%s: blocks handed to the compression function == msg || 0x80 || 0* || bitlen64 for a fully symbolic %d-byte message (both constructors)' % (an, n),
                   bounds='length %d, all contents' % n)
     return qs
